@@ -48,3 +48,106 @@ package health
 //@   ensures xhas(cb.endpoints, endpointURL) && xget(cb.endpoints, endpointURL).isOpen == 1 && res == false ==> xget(cb.endpoints, endpointURL).lastAttempt >= old(now)
 //@   ensures xhas(cb.endpoints, endpointURL) && xget(cb.endpoints, endpointURL).isOpen == 1 && res == false ==> old(xget(cb.endpoints, endpointURL).lastAttempt) == 0 || old(xget(cb.endpoints, endpointURL).lastAttempt) + 1000000000 <= now
 //@   ensures xhas(cb.endpoints, endpointURL) && xget(cb.endpoints, endpointURL).isOpen == 1 && old(now) > xget(cb.endpoints, endpointURL).lastFailure + 30000000000 && (old(xget(cb.endpoints, endpointURL).lastAttempt) == 0 || old(xget(cb.endpoints, endpointURL).lastAttempt) + 1000000000 <= old(now)) ==> res == false
+
+// ---- C07: health state machine, backoff schedule, recovery
+
+// M(f): backoff multiplier after f consecutive failed checks; delayOf: delay chosen by a failed check that
+// starts from multiplier m; nextMult: multiplier stored by that check.
+//@ spec func backoffM(f int) int = ite(f <= 0, 1, ite(f == 1, 2, ite(f == 2, 4, ite(f == 3, 8, 12))))
+//@ spec func nextMult(m int) int = ite(m <= 1, 2, min(2 * m, 12))
+//@ spec func delayOf(iv int, m int) int = ite(m <= 1, iv, min(iv * m, 60000000000))
+//@ lemma sched_step C07: forall f int :: f >= 0 ==> nextMult(backoffM(f)) == backoffM(f + 1)
+//@ lemma sched_delay C07: forall f int, iv int :: f >= 0 && iv >= 0 ==> delayOf(iv, backoffM(f)) == min(iv * backoffM(f), ite(f == 0, iv, 60000000000))
+//@ lemma sched_bounded C07: forall f int, iv int :: f >= 0 && iv >= 0 ==> delayOf(iv, backoffM(f)) <= max(iv, 60000000000)
+
+//@ func determineStatus
+//@   property C07 C20
+//@   replay health_determinestatus : statusCode ; latency ; err ; errorType
+//@   ensures err != nil && (errorType == 1 || errorType == 2 || errorType == 4) ==> res == "offline"
+//@   ensures err != nil && !(errorType == 1 || errorType == 2 || errorType == 4) ==> res == "unhealthy"
+//@   ensures err == nil && statusCode >= 200 && statusCode < 300 && latency <= 10000000000 ==> res == "healthy"
+//@   ensures err == nil && statusCode >= 200 && statusCode < 300 && latency > 10000000000 ==> res == "busy"
+//@   ensures err == nil && !(statusCode >= 200 && statusCode < 300) ==> res == "unhealthy"
+//@   ensures res == "healthy" ==> err == nil && statusCode >= 200 && statusCode < 300
+
+//@ func classifyError
+//@   property C07 C20
+//@   ensures errorsIs(err, ErrCircuitBreakerOpen) ==> res == 4
+//@   ensures !errorsIs(err, ErrCircuitBreakerOpen) && errorsAs(err, "net.Error") ==> (purecall("(net.Error).Timeout", "bool", errorsAsVal(err, "net.Error")) ==> res == 2) && (!purecall("(net.Error).Timeout", "bool", errorsAsVal(err, "net.Error")) ==> res == 1)
+//@   ensures !errorsIs(err, ErrCircuitBreakerOpen) && !errorsAs(err, "net.Error") && errorsIs(err, context.DeadlineExceeded) ==> res == 2
+//@   ensures !errorsIs(err, ErrCircuitBreakerOpen) && !errorsAs(err, "net.Error") && !errorsIs(err, context.DeadlineExceeded) && errorsIs(err, context.Canceled) ==> res == 1
+//@   ensures res == 1 || res == 2 || res == 3 || res == 4
+
+//@ func calculateBackoff
+//@   property C07
+//@   requires endpoint != nil
+//@   ensures success ==> res0 == endpoint.CheckInterval && res1 == 1
+//@   ensures !success ==> res0 == delayOf(endpoint.CheckInterval, endpoint.BackoffMultiplier) && res1 == nextMult(endpoint.BackoffMultiplier)
+
+//@ ghost var chkStatus domain.EndpointStatus
+//@ ghost var chkCount int
+//@ ghost var doCount int
+
+//@ interface HTTPClient.Do
+//@   records doCount = old(doCount) + 1
+
+//@ func calculateBackoffDelay
+//@   property C07
+//@   ensures true
+
+//@ func shouldRetry
+//@   property C07
+//@   ensures true
+
+//@ func injectDefaultHeaders
+//@   property C07
+//@   requires req != nil && req.Header != nil
+//@   modifies req.Header[all]
+//@   ensures res == req
+
+//@ func (hc *HealthClient) performSingleCheck
+//@   property C07 C20
+//@   requires hc != nil && endpoint != nil
+//@   modifies gvar doCount
+//@   ensures doCount <= old(doCount) + 1 && doCount >= old(doCount)
+//@   ensures res0.Status == "healthy" ==> doCount == old(doCount) + 1
+//@   ensures doCount == old(doCount) ==> res1 != nil
+//@   ensures res1 == nil ==> res0.Status == "healthy" || res0.Status == "busy" || res0.Status == "unhealthy"
+//@   ensures res1 != nil ==> res0.Status == "offline" || res0.Status == "unhealthy"
+//@   ensures res0.Status == "healthy" ==> res1 == nil && res0.StatusCode >= 200 && res0.StatusCode < 300
+
+//@ func (hc *HealthClient) Check
+//@   property C07 C08
+//@   requires hc != nil && endpoint != nil && hc.circuitBreaker != nil
+//@   modifies hc.circuitBreaker.endpoints[all], circuitState.failures, circuitState.lastFailure, circuitState.lastAttempt, circuitState.isOpen, gvar doCount
+//@   records chkStatus = result.Status
+//@   records chkCount = old(chkCount) + 1
+//@   loop 1 invariant attempt >= 0
+//@   loop 1 invariant doCount >= old(doCount) && (attempt == 0 ==> doCount == old(doCount))
+//@   loop 1 invariant attempt > 0 ==> (lastErr != nil ==> result.Status == "offline" || result.Status == "unhealthy") && (result.Status == "healthy" ==> lastErr == nil)
+//@   loop 1 invariant attempt > 0 ==> lastErr != nil
+//@   loop 1 decreases 3 - attempt
+//@   ensures result.Status == "healthy" ==> err == nil
+//@   ensures err != nil ==> result.Status != "healthy"
+//@   ensures result.Status == "healthy" ==> doCount > old(doCount)
+//@   ensures result.Status == "healthy" && xhas(hc.circuitBreaker.endpoints, endpoint.HealthCheckURLString) ==> xget(hc.circuitBreaker.endpoints, endpoint.HealthCheckURLString).failures == 0 && xget(hc.circuitBreaker.endpoints, endpoint.HealthCheckURLString).isOpen == 0
+//@   ensures doCount == old(doCount) ==> result.Status == "offline" || result.Status == "" || result.Status == "unhealthy"
+
+//@ ghost var recoveredFor string
+
+//@ func (c *HTTPHealthChecker) logHealthCheckResult
+//@   property C07
+//@   ensures true
+
+//@ func (c *HTTPHealthChecker) checkEndpoint
+//@   property C07 C03
+//@   requires c != nil && endpoint != nil && c.healthClient != nil && c.healthClient.circuitBreaker != nil
+//@   modifies c.healthClient.circuitBreaker.endpoints[all], circuitState.failures, circuitState.lastFailure, circuitState.lastAttempt, circuitState.isOpen
+//@   modifies gvar doCount, gvar chkStatus, gvar chkCount, gvar spawned
+//@   modifies gvar updCount, gvar updStatus, gvar updLastChecked, gvar updNext, gvar updFailures, gvar updMult, gvar updURL, gvar updErr
+//@   ensures chkCount == old(chkCount) + 1
+//@   ensures updCount == old(updCount) || updCount == old(updCount) + 1
+//@   ensures updCount == old(updCount) + 1 ==> updStatus == chkStatus && updURL == endpoint.URLString && updLastChecked >= old(now)
+//@   ensures updCount == old(updCount) + 1 && chkStatus == "healthy" ==> updFailures == 0 && updMult == 1 && updNext == updLastChecked + endpoint.CheckInterval
+//@   ensures updCount == old(updCount) + 1 && chkStatus != "healthy" ==> updFailures == endpoint.ConsecutiveFailures + 1 && updMult == nextMult(endpoint.BackoffMultiplier) && updNext == updLastChecked + delayOf(endpoint.CheckInterval, endpoint.BackoffMultiplier)
+//@   ensures spawned == old(spawned) + ite(updCount == old(updCount) + 1 && updErr == nil && chkStatus == "healthy" && endpoint.Status != "healthy" && endpoint.Status != "unknown" && c.recoveryCallback != nil, 1, 0)
